@@ -365,5 +365,35 @@ def load_module(rel, ns, transforms=(), only=None):
     return ns
 
 
+def load_nested(rel, outer_qual, names, ns):
+    """mechanical extraction of functions defined INSIDE another function of the real module (closures): the nested
+    FunctionDef nodes named `names` inside `outer_qual` (e.g. 'EspiritCalib.__init__') are compiled, unchanged, as
+    top-level functions of namespace ns.  What the extraction drops: the enclosing scope - the closure's free variables
+    must be supplied by ns (the contract states which values they stand for)."""
+    src = Source.get(rel)
+    tree = ast.parse(src.text, filename=src.path)
+    tree = _Strip(keep_vectorize=False).visit(tree)
+    node = tree
+    for part in outer_qual.split("."):
+        nxt = None
+        for n in node.body:
+            if isinstance(n, (ast.FunctionDef, ast.ClassDef)) and n.name == part:
+                nxt = n
+                break
+        if nxt is None:
+            raise KeyError("no %s in %s" % (outer_qual, rel))
+        node = nxt
+    found = []
+    for n in ast.walk(node):
+        if isinstance(n, ast.FunctionDef) and n.name in names and n is not node:
+            found.append(n)
+    if sorted(f.name for f in found) != sorted(names):
+        raise KeyError("nested functions %s not all found in %s:%s" % (names, rel, outer_qual))
+    mod = ast.Module(body=found, type_ignores=[])
+    ast.fix_missing_locations(mod)
+    exec(compile(mod, TAG + rel, "exec"), ns)
+    return ns
+
+
 def is_repo_frame(filename):
     return filename.startswith(TAG)
